@@ -2,12 +2,15 @@
 """writes contracts/block_mem/unit.json"""
 import json, os
 V = os.path.dirname(os.path.dirname(os.path.abspath(__file__)))
-RECUR = ['ubuf_free:3', 'ubuf_block_mem_free:3', 'ubuf_block_common_clean:3', 'ubuf_block_mem_dup:3', 'ubuf_block_common_dup:3', 'ubuf_dup:3',
-         'ubuf_control:4', 'ubuf_control_va:4', 'ubuf_block_mem_control:4', 'ubuf_block_mem_splice:3', 'ubuf_block_common_splice:3']
+RECUR = ['ubuf_free:2', 'ubuf_block_mem_free:2', 'ubuf_block_common_clean:2', 'ubuf_block_mem_dup:2', 'ubuf_block_common_dup:2', 'ubuf_dup:2',
+         'ubuf_control:3', 'ubuf_control_va:3', 'ubuf_block_mem_control:3', 'ubuf_block_mem_splice:2', 'ubuf_block_common_splice:2',
+         'ubuf_block_common_clean.0:4', 'ubuf_block_common_dup.0:4', 'ubuf_block_common_splice.0:4']
 groups = [{'name': 'mem_alloc', 'entry': 'h_mem_alloc', 'enforce': None, 'dfcc': False, 'unwind': 7, 'timeout': 300, 'properties': ['C03', 'C02', 'C01'],
            'object_bits': 8}]
 for fn, props in (('single', ['C02']), ('write', ['C02']), ('dup', ['C02', 'C03', 'C01']), ('splice', ['C02', 'C03', 'C01']), ('free', ['C01', 'C09', 'C02'])):
     for nseg, tier in ((1, 'quick'), (2, 'quick'), (3, 'thorough')):
+        if fn == 'splice':
+            tier = 'thorough'       # measured: > 400 s per shape (symbolic offset/size through ubuf_block_common_splice)
         if fn in ('single', 'write') and nseg > 2:
             continue
         groups.append({'name': 'mem_%s_s%d' % (fn, nseg), 'entry': 'h_mem_' + fn, 'enforce': None, 'dfcc': False, 'defines': ['NSEG=%d' % nseg],
